@@ -895,6 +895,7 @@ func runC15(ctx *Ctx) {
 		c15Rejects(ctx, v, t)
 	}
 	runC15Inf(ctx)
+	runC15Conv(ctx)
 	// 3. documents, number parsing, NumOK
 	runC15Docs(ctx)
 	runC15Deep(ctx)
